@@ -92,7 +92,7 @@ theorem isContainerStart_eq {vt : ValueType} (h : vt.isContainerStart = true) : 
 /-- the three ways the level moves -/
 theorem levelStep_inv {c : Control} {l lv : Nat} (h : levelStep c (l + 1) = .ok lv) :
     (c.vt.isContainerEnd = true ∧ c.tag = .anon ∧ lv = l) ∨
-    (c.vt.isContainerEnd = false ∧ c.vt.isContainerStart = true ∧ lv = l + 2 ∧ l + 2 < USIZE) ∨
+    (c.vt.isContainerEnd = false ∧ c.vt.isContainerStart = true ∧ lv = l + 2 ∧ l + 2 < I32LIM) ∨
     (c.vt.isContainerEnd = false ∧ c.vt.isContainerStart = false ∧ lv = l + 1) := by
   unfold levelStep at h
   cases hend : c.vt.isContainerEnd with
@@ -103,7 +103,7 @@ theorem levelStep_inv {c : Control} {l lv : Nat} (h : levelStep c (l + 1) = .ok 
     unfold Control.confirmContainerEnd Control.isContainerEnd at h1
     have hanon : c.tag = .anon := by
       cases ht : c.tag <;> simp [ht, hend] at h1 ⊢
-    simp [subUsize] at h2
+    simp [subI32] at h2
     exact ⟨rfl, hanon, by omega⟩
   | false =>
     right
@@ -111,7 +111,7 @@ theorem levelStep_inv {c : Control} {l lv : Nat} (h : levelStep c (l + 1) = .ok 
     cases hs : c.vt.isContainerStart with
     | true =>
       left
-      simp only [hs, if_true, addUsize] at h
+      simp only [hs, if_true, addI32] at h
       split at h
       · simp at h; exact ⟨rfl, rfl, by omega, by omega⟩
       · simp at h
@@ -383,7 +383,7 @@ theorem reencode_known {b : UInt8} {tl s : Bytes} {c : Control} {t : Tag}
 
 /-- a non-container token inside a walk: `tag()` succeeds, `value()` succeeds unless it is a bad
 UTF-8 string, and the TLV bytes are the token's own bytes -/
-theorem token_leaf {P P' : Bytes} {c : Control} {e : Nat} (hu : P.length + 1 < USIZE)
+theorem token_leaf {P P' : Bytes} {c : Control} {e : Nat} (hu : P.length < I32LIM)
     (hc : control P = .ok c) (hnc : c.vt.isContainer = false) (hn : nextEnter P = .ok P')
     (he : elemLen P = .ok e) :
     P' = P.drop e ∧ e ≤ P.length ∧ ∃ t, tagOf P = .ok t ∧
@@ -564,7 +564,7 @@ theorem walk_glue {f2 : Nat} {seq P : Bytes} {c : Control} {t : Tag} {e k' len t
       · rfl
 
 theorem walk_main : ∀ (f2 f : Nat) (seq : Bytes) (len nesting total : Nat),
-    seq.length < f2 → seq.length + 1 < USIZE → cvlStep f seq len nesting = .ok total →
+    seq.length < f2 → seq.length < I32LIM → cvlStep f seq len nesting = .ok total →
     ∃ k, total = len + k + 1 ∧ k + 1 ≤ seq.length ∧ seq.take (k + 1) = seq.take k ++ [endByte] ∧
       tlvConcat (tlvElementsF f2 seq nesting) =
         if (tokensF f2 seq nesting).all (fun e => !badUtf8 e) then .ok (seq.take k) else .err .mismatch := by
@@ -612,7 +612,7 @@ theorem walk_main : ∀ (f2 f : Nat) (seq : Bytes) (len nesting total : Nat),
       have hfu := cvlLoop_fuel _ _ _ _ _ (seq.length + 1) hn1 (Nat.lt_succ_self _)
       have hv := valueOf_open hc hk hvs hfu (by omega)
       have hadd : (if c.vt.isContainerStart then addUsize nesting 1 else pure nesting) = Res.ok (nesting + 1) := by
-        simp only [hst, if_true, addUsize]; rw [if_pos (by omega)]
+        simp only [hst, if_true, addUsize]; rw [if_pos (by have hLU := i32lim_lt_usize; omega)]
       obtain ⟨g1, g2, g3, g4⟩ := walk_glue (f2 := f2) (len := len) hc hend ht hP hPd hel hadd
         (by simp only [hst, if_true]) (Or.inr ⟨hbad, _, hv, hbytes⟩) ⟨hk1, hk2, hk3, hk4⟩
       exact ⟨e + k', g1, g2, g3, g4⟩
@@ -721,7 +721,7 @@ theorem reencodeIter_of_reencode_err (bs : Bytes) (e : Err) (h : reencode bs = .
 /-- **(T1)** the exact relation on arbitrary input whose head is not an end-of-container element:
 whenever `to_tlv` succeeds, the iterator-based re-encoding gives the *same bytes* if no UTF-8 string
 token inside has an invalid payload, and fails with `TLVTypeMismatch` otherwise -/
-theorem reencodeIter_of_reencode (bs out : Bytes) (hu : bs.length + 1 < USIZE)
+theorem reencodeIter_of_reencode (bs out : Bytes) (hu : bs.length < I32LIM)
     (h : reencode bs = .ok out) (hend : headIsEnd bs = false) :
     reencodeIter bs = if utf8Clean bs then .ok out else .err .mismatch := by
   cases bs with
@@ -820,7 +820,7 @@ theorem reencode_of_reencodeIter (bs out : Bytes) (h : reencodeIter bs = .ok out
 /-- **(T2)** the converse on arbitrary non-empty input whose head is not an end-of-container element:
 a successful iterator-based re-encoding is exactly the first `container_len()` bytes of the input,
 equals what `to_tlv` produces, and every UTF-8 token inside is valid -/
-theorem reencodeIter_take (bs out : Bytes) (hne : bs ≠ []) (hu : bs.length + 1 < USIZE)
+theorem reencodeIter_take (bs out : Bytes) (hne : bs ≠ []) (hu : bs.length < I32LIM)
     (h : reencodeIter bs = .ok out) (hend : headIsEnd bs = false) :
     utf8Clean bs = true ∧ reencode bs = .ok out ∧ ∃ n, containerLen bs = .ok n ∧ out = bs.take n := by
   obtain ⟨out', h'⟩ := reencode_of_reencodeIter bs out h
@@ -835,7 +835,7 @@ theorem reencodeIter_take (bs out : Bytes) (hne : bs ≠ []) (hu : bs.length + 1
     exact ⟨rfl, h', reencode_take bs out hne hu h'⟩
 
 /-- both directions in one statement (head not an end-of-container element) -/
-theorem reencodeIter_ok_iff (bs out : Bytes) (hu : bs.length + 1 < USIZE) (hend : headIsEnd bs = false) :
+theorem reencodeIter_ok_iff (bs out : Bytes) (hu : bs.length < I32LIM) (hend : headIsEnd bs = false) :
     reencodeIter bs = .ok out ↔ (reencode bs = .ok out ∧ utf8Clean bs = true) := by
   constructor
   · intro h
@@ -850,12 +850,12 @@ theorem reencodeIter_ok_iff (bs out : Bytes) (hu : bs.length + 1 < USIZE) (hend 
     rw [reencodeIter_of_reencode bs out hu h1 hend, h2]; rfl
 
 /-- **(T1, plain form)** -/
-theorem reencodeIter_eq_reencode (bs out : Bytes) (hu : bs.length + 1 < USIZE) (hend : headIsEnd bs = false)
+theorem reencodeIter_eq_reencode (bs out : Bytes) (hu : bs.length < I32LIM) (hend : headIsEnd bs = false)
     (hclean : utf8Clean bs = true) (h : reencode bs = .ok out) : reencodeIter bs = .ok out :=
   (reencodeIter_ok_iff bs out hu hend).mpr ⟨h, hclean⟩
 
 /-- whenever both succeed on an element that is not an end marker they produce the same bytes -/
-theorem reencode_reencodeIter_agree (bs out out' : Bytes) (hu : bs.length + 1 < USIZE)
+theorem reencode_reencodeIter_agree (bs out out' : Bytes) (hu : bs.length < I32LIM)
     (hend : headIsEnd bs = false) (h : reencode bs = .ok out) (h' : reencodeIter bs = .ok out') : out' = out := by
   have := ((reencodeIter_ok_iff bs out' hu hend).mp h').1
   rw [h] at this; injection this with e; exact e.symm
@@ -907,10 +907,10 @@ theorem tlvIterNext_leaf (t : Tag) (p : Prim) (more : Bytes) (n : Nat) (ht : t.w
   · simp only [h.1, Bool.false_eq_true, if_false, Res.pure_eq]
 
 theorem tlvIterNext_open (t : Tag) (k : Kind) (cs : Values) (more : Bytes) (n : Nat) (ht : t.wf) (hw : cs.wf)
-    (hl : (encodes cs).length + 1 < USIZE) (hn : n + 1 < USIZE) :
+    (hl : (encodes cs).length + 1 < I32LIM) (hn : n + 1 < USIZE) :
     tlvIterNext (encode (.cont t k cs) ++ more) n =
       (some (.ok (t, .cont k)), encodes cs ++ endByte :: more, n + 1) := by
-  have hd : cs.depth + 1 < USIZE := by
+  have hd : cs.depth + 1 < I32LIM := by
     have := Values.depth_le_ntoks cs; have := Values.ntoks_le cs; omega
   apply tlvIterNext_tok (c := ⟨t.type, .cont k⟩)
   · rw [encode_cont_append, control_header]
@@ -922,7 +922,7 @@ theorem tlvIterNext_open (t : Tag) (k : Kind) (cs : Values) (more : Bytes) (n : 
 
 mutual
 theorem tlvElementsF_value (v : Value) (f : Nat) (more : Bytes) (n : Nat) (hw : v.wf)
-    (hl : (encode v).length + 1 < USIZE) (hn : n + v.depth < USIZE) :
+    (hl : (encode v).length + 1 < I32LIM) (hn : n + v.depth < USIZE) :
     tlvElementsF (f + v.ntoks) (encode v ++ more) n = v.toks.map .ok ++ tlvElementsF f more n := by
   cases v with
   | leaf t p =>
@@ -941,7 +941,7 @@ theorem tlvElementsF_value (v : Value) (f : Nat) (more : Bytes) (n : Nat) (hw : 
     simp only [Value.toks, List.map_cons, List.map_append, List.map_nil, List.cons_append, List.append_assoc,
       List.nil_append]
 theorem tlvElementsF_values (vs : Values) (f : Nat) (more : Bytes) (n : Nat) (hw : vs.wf)
-    (hl : (encodes vs).length + 1 < USIZE) (hn : n + vs.depth < USIZE) :
+    (hl : (encodes vs).length + 1 < I32LIM) (hn : n + vs.depth < USIZE) :
     tlvElementsF (f + vs.ntoks) (encodes vs ++ more) n = vs.toks.map .ok ++ tlvElementsF f more n := by
   cases vs with
   | nil => simp [Values.ntoks, encodes, Values.toks]
@@ -958,14 +958,14 @@ end
 
 /-- `seq.tlv_iter()` over the content of a written container yields exactly the flattened TLV tokens
 of its children — nested end markers included — and stops at the closing end marker -/
-theorem tlvElements_encodes (cs : Values) (rest : Bytes) (hw : cs.wf) (hl : (encodes cs).length + 1 < USIZE) :
+theorem tlvElements_encodes (cs : Values) (rest : Bytes) (hw : cs.wf) (hl : (encodes cs).length + 1 < I32LIM) :
     tlvElements (encodes cs ++ endByte :: rest) = cs.toks.map .ok := by
   unfold tlvElements
   have h2 := Values.ntoks_le cs
   have h3 := Values.depth_le_ntoks cs
   obtain ⟨f, hf⟩ : ∃ f, (encodes cs ++ endByte :: rest).length + 1 = (f + 1) + cs.ntoks :=
     ⟨(encodes cs ++ endByte :: rest).length - cs.ntoks, by simp; omega⟩
-  rw [hf, tlvElementsF_values cs (f + 1) (endByte :: rest) 0 hw hl (by omega)]
+  rw [hf, tlvElementsF_values cs (f + 1) (endByte :: rest) 0 hw hl (by have hLU := i32lim_lt_usize; omega)]
   rw [tlvElementsF_succ, tlvIterNext_end0]
   simp
 
@@ -990,9 +990,9 @@ theorem Prim.lenField_eq (p : Prim) : (leBytes 8 p.data.length).take p.vt.varSiz
   | _ => simp [Prim.vt, ValueType.varSizeLen, Prim.lenField]
 
 theorem containerValue_cont (t : Tag) (k : Kind) (cs : Values) (more : Bytes) (hw : cs.wf)
-    (hl : (encodes cs).length + 1 < USIZE) :
+    (hl : (encodes cs).length + 1 < I32LIM) :
     containerValue (encode (.cont t k cs) ++ more) ⟨t.type, .cont k⟩ = .ok (encodes cs ++ [endByte]) := by
-  have hd : cs.depth + 1 < USIZE := by
+  have hd : cs.depth + 1 < I32LIM := by
     have := Values.depth_le_ntoks cs; have := Values.ntoks_le cs; omega
   have h1 := containerValueLen_cont t k cs more hw hl hd
   unfold containerValue
@@ -1006,7 +1006,7 @@ theorem containerValue_cont (t : Tag) (k : Kind) (cs : Values) (more : Bytes) (h
   simp only [this]
 
 /-- **(T3)** on the writer's output, followed by anything, `to_tlv` reproduces the written bytes … -/
-theorem reencode_encode (v : Value) (rest : Bytes) (hw : v.wf) (hl : (encode v).length + 1 < USIZE) :
+theorem reencode_encode (v : Value) (rest : Bytes) (hw : v.wf) (hl : (encode v).length + 1 < I32LIM) :
     reencode (encode v ++ rest) = .ok (encode v) := by
   cases v with
   | leaf t p =>
@@ -1029,7 +1029,7 @@ theorem reencode_encode (v : Value) (rest : Bytes) (hw : v.wf) (hl : (encode v).
     simp only [ValueType.varSizeLen, List.take_zero, List.nil_append, encode]
 
 /-- … and so does the iterator-based re-encoding -/
-theorem reencodeIter_encode (v : Value) (rest : Bytes) (hw : v.wf) (hl : (encode v).length + 1 < USIZE) :
+theorem reencodeIter_encode (v : Value) (rest : Bytes) (hw : v.wf) (hl : (encode v).length + 1 < I32LIM) :
     reencodeIter (encode v ++ rest) = .ok (encode v) := by
   unfold reencodeIter
   simp only [encode_ne_nil, Bool.false_eq_true, if_false]
@@ -1048,7 +1048,7 @@ theorem reencodeIter_encode (v : Value) (rest : Bytes) (hw : v.wf) (hl : (encode
     simp only [Value.wf] at hw
     have hlen : (encode (.cont t k cs)).length = (header t (.cont k)).length + (encodes cs).length + 1 := by
       simp [encode]; omega
-    have hd : cs.depth + 1 < USIZE := by
+    have hd : cs.depth + 1 < I32LIM := by
       have := Values.depth_le_ntoks cs; have := Values.ntoks_le cs; omega
     have ht : tagOf (encode (.cont t k cs) ++ rest) = .ok t := by
       rw [encode_cont_append]; exact tagOf_header t _ _ hw.1
@@ -1065,8 +1065,8 @@ theorem headIsEnd_encode (v : Value) (rest : Bytes) : headIsEnd (encode v ++ res
   rw [headIsEnd_eq hc, hend]
 
 /-- every UTF-8 token of a written tree is valid (`Prim.wf` demands it of the writer's caller) -/
-theorem utf8Clean_encode (v : Value) (rest : Bytes) (hw : v.wf) (hl : (encode v).length + 1 < USIZE)
-    (hu : (encode v ++ rest).length + 1 < USIZE) : utf8Clean (encode v ++ rest) = true :=
+theorem utf8Clean_encode (v : Value) (rest : Bytes) (hw : v.wf) (hl : (encode v).length + 1 < I32LIM)
+    (hu : (encode v ++ rest).length < I32LIM) : utf8Clean (encode v ++ rest) = true :=
   (reencodeIter_take _ _ (by have := encode_ne_nil v rest; intro h; rw [h] at this; simp at this) hu
     (reencodeIter_encode v rest hw hl) (headIsEnd_encode v rest)).1
 
@@ -1084,7 +1084,7 @@ def reencodeIterSpec (bs : Bytes) : Res Bytes :=
   | .err e => .err e
   | .panic p => .panic p
 
-theorem reencodeIter_eq_spec (bs : Bytes) (hu : bs.length + 1 < USIZE) : reencodeIter bs = reencodeIterSpec bs := by
+theorem reencodeIter_eq_spec (bs : Bytes) (hu : bs.length < I32LIM) : reencodeIter bs = reencodeIterSpec bs := by
   cases h : reencode bs with
   | panic p => exact absurd h (reencode_np bs hu p)
   | err e => simp only [reencodeIterSpec, h]; exact reencodeIter_of_reencode_err bs e h
@@ -1102,7 +1102,7 @@ theorem reencodeIter_eq_spec (bs : Bytes) (hu : bs.length + 1 < USIZE) : reencod
 /-- the unconditional statement "whenever `to_tlv` succeeds the iterator-based re-encoding succeeds
 with the same bytes" is false … -/
 theorem reencodeIter_eq_reencode_unconditional_false :
-    ¬ ∀ bs out : Bytes, bs.length + 1 < USIZE → reencode bs = .ok out → reencodeIter bs = .ok out := by
+    ¬ ∀ bs out : Bytes, bs.length < I32LIM → reencode bs = .ok out → reencodeIter bs = .ok out := by
   intro h
   have := h [0x0c, 0x01, 0x80] [0x0c, 0x01, 0x80] (by decide) (by decide)
   revert this; decide
@@ -1143,7 +1143,7 @@ example : tlvElements [0x36, 0x01, 0x24, 0x02, 0x05, 0x18, 0x18, 0xff] =
 
 /-- for a container element the value length computed by the `container_value_len` walk lies within
 the input on its own — the final bounds check of `container_len` is what catches over-long *strings* -/
-theorem containerValueLen_within (bs : Bytes) (c : Control) (n : Nat) (hu : bs.length + 1 < USIZE)
+theorem containerValueLen_within (bs : Bytes) (c : Control) (n : Nat) (hu : bs.length < I32LIM)
     (hc : control bs = .ok c) (hic : c.vt.isContainer = true) (h : containerValueLen bs c = .ok n) :
     hdrLen c + n ≤ bs.length := by
   cases bs with
